@@ -603,4 +603,497 @@ theorem fileFromBytes_ins_app {t t2 : Bytes} (ht : NL t) (ht2 : NL t2) {G : Even
     rw [htext, hins]
     simp [Event.toReal, he0, htl, ← hreal]
 
+/-! ### front matter before the first header: stable under a change of what follows the header start -/
+
+theorem spanP_repl (p : UInt8 → Bool) {w X1 c c' : Bytes} (h : spanP p (w ++ (X1 ++ c)) = (w, X1 ++ c))
+    (hc : X1 ≠ [] ∨ (c ≠ [] ∧ c.head? = c'.head?)) : spanP p (w ++ (X1 ++ c')) = (w, X1 ++ c') := by
+  obtain ⟨hall, hstop⟩ := spanP_split p (w ++ (X1 ++ c))
+  rw [h] at hall hstop
+  simp only at hall hstop
+  cases X1 with
+  | cons x X1' =>
+    have := hstop x (X1' ++ c) rfl
+    exact spanP_stop p w x (X1' ++ c') hall this
+  | nil =>
+    rcases hc with hc | ⟨hcne, hhd⟩
+    · exact absurd rfl hc
+    · simp only [List.nil_append] at hstop ⊢
+      cases c with
+      | nil => exact absurd rfl hcne
+      | cons y c1 =>
+        have hy := hstop y c1 rfl
+        cases c' with
+        | nil => simp at hhd
+        | cons y' c1' =>
+          simp only [List.head?_cons, Option.some.injEq] at hhd
+          subst hhd
+          exact spanP_stop p w y c1' hall hy
+
+theorem takeNewlines_fall {c d : UInt8} (hc : c ≠ 10) (hcd : ¬(c = 13 ∧ d = 10)) (n : Nat) (rr : Bytes) :
+    takeNewlines (n + 1) (c :: d :: rr) = ([], c :: d :: rr) := by
+  rw [takeNewlines.eq_def]
+  split
+  · rename_i heq; simp at heq
+  · rename_i heq; simp at heq; exact absurd ⟨heq.1, heq.2.1⟩ hcd
+  · rename_i heq; simp at heq; exact absurd heq.1 hc
+  · rfl
+
+theorem takeNewlines_bracket (n : Nat) (z : Bytes) : takeNewlines n (91 :: z) = ([], 91 :: z) := by
+  cases n with
+  | zero => rfl
+  | succ m =>
+    cases z with
+    | nil => simp [takeNewlines]
+    | cons d rr => exact takeNewlines_fall (by decide) (by intro hh; exact absurd hh.1 (by decide)) m rr
+
+/-- newline runs before a `[` -/
+theorem takeNewlines_repl : ∀ (n : Nat) (X c1 c1' w X1 : Bytes),
+    takeNewlines n (X ++ 91 :: c1) = (w, X1 ++ 91 :: c1) → X = w ++ X1 →
+    takeNewlines n (X ++ 91 :: c1') = (w, X1 ++ 91 :: c1') := by
+  intro n
+  induction n with
+  | zero =>
+    intro X c1 c1' w X1 h hX
+    simp only [takeNewlines, Prod.mk.injEq] at h
+    obtain ⟨rfl, _⟩ := h
+    simp only [List.nil_append] at hX
+    subst hX
+    simp [takeNewlines]
+  | succ n ih =>
+    intro X c1 c1' w X1 h hX
+    match X, hX with
+    | [], hX =>
+      have hw := List.append_eq_nil_iff.mp hX.symm
+      obtain ⟨rfl, rfl⟩ := hw
+      simp only [List.nil_append]
+      exact takeNewlines_bracket _ _
+    | [x], hX =>
+      by_cases hx : x = 10
+      · subst hx
+        simp only [List.cons_append, List.nil_append, takeNewlines, takeNewlines_bracket, Prod.mk.injEq] at h ⊢
+        obtain ⟨rfl, _⟩ := h
+        have : X1 = [] := by simpa using hX
+        subst this
+        exact ⟨rfl, rfl⟩
+      · simp only [List.cons_append, List.nil_append] at h ⊢
+        rw [takeNewlines_fall hx (by intro hh; exact absurd hh.2 (by decide)) n c1] at h
+        rw [takeNewlines_fall hx (by intro hh; exact absurd hh.2 (by decide)) n c1']
+        simp only [Prod.mk.injEq] at h ⊢
+        obtain ⟨rfl, _⟩ := h
+        simp only [List.nil_append] at hX
+        subst hX
+        exact ⟨rfl, rfl⟩
+    | x :: y :: X2, hX =>
+      by_cases hx : x = 10
+      · subst hx
+        simp only [List.cons_append, takeNewlines, Prod.mk.injEq] at h ⊢
+        obtain ⟨rfl, h2⟩ := h
+        have hX' : y :: X2 = (takeNewlines n (y :: (X2 ++ 91 :: c1))).1 ++ X1 := by
+          simpa using hX
+        have := ih (y :: X2) c1 c1' _ X1 (Prod.ext rfl h2) hX'
+        simp only [List.cons_append] at this
+        rw [this]
+        exact ⟨rfl, rfl⟩
+      · by_cases hxy : x = 13 ∧ y = 10
+        · obtain ⟨rfl, rfl⟩ := hxy
+          simp only [List.cons_append, takeNewlines, Prod.mk.injEq] at h ⊢
+          obtain ⟨rfl, h2⟩ := h
+          have hX' : X2 = (takeNewlines n (X2 ++ 91 :: c1)).1 ++ X1 := by
+            simpa using hX
+          have := ih X2 c1 c1' _ X1 (Prod.ext rfl h2) hX'
+          rw [this]
+          exact ⟨rfl, rfl⟩
+        · simp only [List.cons_append] at h ⊢
+          rw [takeNewlines_fall hx hxy n] at h
+          rw [takeNewlines_fall hx hxy n]
+          simp only [Prod.mk.injEq] at h ⊢
+          obtain ⟨rfl, _⟩ := h
+          simp only [List.nil_append] at hX
+          rw [← hX]
+          exact ⟨rfl, rfl⟩
+
+theorem frontStep_repl {X X1 c1 c1' : Bytes} {e : Event} (hX : X ≠ [])
+    (h : frontStep (X ++ 91 :: c1) = some (e, X1 ++ 91 :: c1)) :
+    frontStep (X ++ 91 :: c1') = some (e, X1 ++ 91 :: c1') := by
+  cases X with
+  | nil => exact absurd rfl hX
+  | cons x X' =>
+    unfold frontStep at h ⊢
+    simp only [List.cons_append] at h ⊢
+    by_cases hx : (x == 59 || x == 35) = true
+    · -- a comment
+      simp only [comment, hx, ↓reduceIte, Option.some.injEq, Prod.mk.injEq] at h ⊢
+      obtain ⟨rfl, h2⟩ := h
+      have happ := spanP_append (fun b => b != 10) (X' ++ 91 :: c1)
+      rw [h2] at happ
+      have hX' : (spanP (fun b => b != 10) (X' ++ 91 :: c1)).1 ++ X1 = X' := by
+        have : ((spanP (fun b => b != 10) (X' ++ 91 :: c1)).1 ++ X1) ++ 91 :: c1 = X' ++ 91 :: c1 := by
+          simpa using happ
+        exact List.append_cancel_right this
+      generalize hw : (spanP (fun b => b != 10) (X' ++ 91 :: c1)).1 = w at h2 hX'
+      have h3 : spanP (fun b => b != 10) (w ++ (X1 ++ 91 :: c1)) = (w, X1 ++ 91 :: c1) := by
+        rw [← List.append_assoc, hX']; exact Prod.ext hw h2
+      have := spanP_repl (c' := 91 :: c1') (fun b => b != 10) h3 (Or.inr ⟨by simp, rfl⟩)
+      rw [← List.append_assoc, hX'] at this
+      rw [this]
+      exact ⟨rfl, rfl⟩
+    · have hcn : ∀ z, comment (x :: z) = none := by intro z; simp [comment, hx]
+      simp only [hcn] at h ⊢
+      by_cases hsp : isSpace x = true
+      · -- whitespace
+        cases hs : takeSpaces1 (x :: (X' ++ 91 :: c1)) with
+        | none =>
+          exfalso
+          simp [takeSpaces1, spanP, List.takeWhile_cons, hsp] at hs
+        | some q =>
+          obtain ⟨w, r⟩ := q
+          simp only [hs, Option.some.injEq, Prod.mk.injEq] at h
+          obtain ⟨rfl, rfl⟩ := h
+          obtain ⟨hwr, hwne, _⟩ := takeSpaces1_ok hs
+          have hX' : w ++ X1 = x :: X' := by
+            have : (w ++ X1) ++ 91 :: c1 = (x :: X') ++ 91 :: c1 := by simpa using hwr
+            exact List.append_cancel_right this
+          have hsp1 : spanP isSpace (w ++ (X1 ++ 91 :: c1)) = (w, X1 ++ 91 :: c1) := by
+            unfold takeSpaces1 at hs
+            simp only at hs
+            split at hs
+            · simp at hs
+            · simp only [Option.some.injEq] at hs
+              rw [← List.append_assoc, hX']; exact hs
+          have := spanP_repl (c' := 91 :: c1') isSpace hsp1 (Or.inr ⟨by simp, rfl⟩)
+          rw [← List.append_assoc, hX'] at this
+          have hts : takeSpaces1 (x :: (X' ++ 91 :: c1')) = some (w, X1 ++ 91 :: c1') := by
+            unfold takeSpaces1
+            simp only [List.cons_append] at this
+            simp only [this]
+            cases w with
+            | nil => exact absurd rfl hwne
+            | cons _ _ => simp
+          simp [hts]
+      · have hsn : ∀ z, takeSpaces1 (x :: z) = none := by
+          intro z; simp [takeSpaces1, spanP, List.takeWhile_cons, hsp]
+        simp only [hsn] at h ⊢
+        cases hn : takeNewlines1 (x :: (X' ++ 91 :: c1)) with
+        | none => simp [hn] at h
+        | some q =>
+          obtain ⟨w, r⟩ := q
+          simp only [hn, Option.some.injEq, Prod.mk.injEq] at h
+          obtain ⟨rfl, rfl⟩ := h
+          have hwr := (takeNewlines1_ok hn).1
+          have hwne := (takeNewlines1_ok hn).2
+          have hX' : x :: X' = w ++ X1 := by
+            have : (w ++ X1) ++ 91 :: c1 = (x :: X') ++ 91 :: c1 := by simpa using hwr
+            exact (List.append_cancel_right this).symm
+          unfold takeNewlines1 at hn
+          simp only at hn
+          split at hn
+          · simp at hn
+          · simp only [Option.some.injEq] at hn
+            have := takeNewlines_repl 1023 (x :: X') c1 c1' w X1 (by simpa using hn) hX'
+            simp only [List.cons_append] at this
+            unfold takeNewlines1
+            simp only [this]
+            cases w with
+            | nil => exact absurd rfl hwne
+            | cons _ _ => simp
+
+/-- the front matter before a `[`: the same events whatever follows the bracket -/
+theorem frontLoop_repl : ∀ (f : Nat) (X c1 c1' : Bytes) (fe : List Event) (g : Nat),
+    frontLoop f (X ++ 91 :: c1) = (fe, 91 :: c1) → X.length ≤ g →
+    frontLoop g (X ++ 91 :: c1') = (fe, 91 :: c1') := by
+  intro f
+  induction f with
+  | zero =>
+    intro X c1 c1' fe g h hg
+    simp only [frontLoop, Prod.mk.injEq] at h
+    obtain ⟨rfl, h2⟩ := h
+    have : X = [] := by
+      have := congrArg List.length h2
+      simp only [List.length_append, List.length_cons] at this
+      exact List.eq_nil_of_length_eq_zero (by omega)
+    subst this
+    exact frontLoop_bracket g c1'
+  | succ f ih =>
+    intro X c1 c1' fe g h hg
+    by_cases hX : X = []
+    · subst hX
+      simp only [List.nil_append] at h ⊢
+      rw [frontLoop_bracket] at h ⊢
+      simp only [Prod.mk.injEq] at h
+      rw [← h.1]
+    · simp only [frontLoop] at h
+      cases hs : frontStep (X ++ 91 :: c1) with
+      | none =>
+        simp only [hs, Prod.mk.injEq] at h
+        exfalso
+        have := congrArg List.length h.2
+        simp only [List.length_append, List.length_cons] at this
+        exact hX (List.eq_nil_of_length_eq_zero (by omega))
+      | some p =>
+        obtain ⟨e, r⟩ := p
+        simp only [hs, Prod.mk.injEq] at h
+        obtain ⟨rfl, h2⟩ := h
+        -- the rest of the step still ends in the bracket text
+        have hok := frontLoop_ok f r
+        rw [h2] at hok
+        have hstep := frontStep_ok hs
+        obtain ⟨X1, hr, hXeq⟩ : ∃ X1, r = X1 ++ 91 :: c1 ∧ X = e.writeRaw ++ X1 := by
+          refine ⟨renderRaw (frontLoop f r).1, hok.symm, ?_⟩
+          have h1 := hstep.1
+          rw [← hok] at h1
+          have : (e.writeRaw ++ renderRaw (frontLoop f r).1) ++ 91 :: c1 = X ++ 91 :: c1 := by simpa using h1
+          exact (List.append_cancel_right this).symm
+        subst hr
+        have hs' := frontStep_repl (c1' := c1') hX hs
+        obtain ⟨g', rfl⟩ : ∃ g', g = g' + 1 := by
+          cases g with
+          | zero => exfalso; simp at hg; exact hX hg
+          | succ g' => exact ⟨g', rfl⟩
+        have hlen : X1.length ≤ g' := by
+          have h1 := hstep.2
+          simp at h1 hg
+          have := congrArg List.length hXeq
+          simp at this
+          omega
+        simp only [frontLoop, hs']
+        rw [ih X1 c1 c1' _ g' (Prod.ext rfl h2) hlen]
+
+theorem split_first_header : ∀ (l1 l2 : List Event) (h1 h2 : Header) (r1 r2 : List Event),
+    (∀ e ∈ l1, isHeaderEv e = false) → (∀ e ∈ l2, isHeaderEv e = false) →
+    l1 ++ .header h1 :: r1 = l2 ++ .header h2 :: r2 → l1 = l2 ∧ h1 = h2 ∧ r1 = r2 := by
+  intro l1
+  induction l1 with
+  | nil =>
+    intro l2 h1 h2 r1 r2 _ hl2 h
+    cases l2 with
+    | nil => simpa using h
+    | cons e l2' =>
+      simp only [List.nil_append, List.cons_append, List.cons.injEq] at h
+      have := hl2 e (by simp)
+      rw [← h.1] at this; simp [isHeaderEv] at this
+  | cons e l1' ih =>
+    intro l2 h1 h2 r1 r2 hl1 hl2 h
+    cases l2 with
+    | nil =>
+      simp only [List.nil_append, List.cons_append, List.cons.injEq] at h
+      have := hl1 e (by simp)
+      rw [h.1] at this; simp [isHeaderEv] at this
+    | cons e2 l2' =>
+      simp only [List.cons_append, List.cons.injEq] at h
+      obtain ⟨rfl, h'⟩ := h
+      obtain ⟨rfl, rfl, rfl⟩ := ih l2' h1 h2 r1 r2 (fun x hx => hl1 x (by simp [hx])) (fun x hx => hl2 x (by simp [hx])) h'
+      exact ⟨rfl, rfl, rfl⟩
+
+theorem noBomHead_same_head {x : UInt8} {r r' : Bytes} (h : noBomHead (x :: r) = true) : noBomHead (x :: r') = true := by
+  simpa [noBomHead] using h
+
+/-- INS with front matter: comments, blank lines and whitespace before the first header stay what
+they are -/
+theorem parseRaw_insF {t : Bytes} (ht : NL t) {a : Bytes} {fe : List Event} {hr : Header} {revs' : List Event}
+    (hp : parseRaw a = some (fe ++ .header hr :: revs')) (hfe : ∀ e ∈ fe, isHeaderEv e = false) (hb : bomLen a = 0)
+    (hY : takeNewlines1 (renderRaw revs') = none) :
+    parseRaw (renderRaw fe ++ (hr.writeWith id ++ (t ++ renderRaw revs'))) =
+      some (fe ++ .header hr :: .newline t :: revs') := by
+  have hnb := noBomHead_of_parse hp hb
+  have hp0 := hp
+  unfold parseRaw at hp
+  rw [hb] at hp
+  simp only [List.drop_zero] at hp
+  have hfk := frontLoop_kind2 a.length a
+  have hfok := frontLoop_ok a.length a
+  generalize hfm : frontLoop a.length a = fm at hp hfk hfok
+  obtain ⟨fm1, fm2⟩ := fm
+  simp only at hp hfk hfok
+  by_cases he : fm2.isEmpty = true
+  · exfalso
+    simp only [he, ↓reduceIte, Option.some.injEq] at hp
+    have := hfk (.header hr) (by rw [hp]; simp)
+    simp [isHeaderEv] at this
+  · simp only [he, Bool.false_eq_true, ↓reduceIte, Option.map_eq_some_iff] at hp
+    obtain ⟨more, hm, hmore⟩ := hp
+    have hne : fm2 ≠ [] := by simpa using he
+    -- `more` starts with a header
+    obtain ⟨h0, rest0, rfl⟩ : ∃ h0 rest0, more = .header h0 :: rest0 := by
+      cases hl : fm2.length with
+      | zero => exact absurd (List.eq_nil_of_length_eq_zero hl) hne
+      | succ k =>
+        rw [hl] at hm
+        have hee : fm2.isEmpty = false := by simpa using hne
+        simp only [sectionsRaw, hee, Bool.false_eq_true, ↓reduceIte] at hm
+        cases hs : sectionRaw fm2 with
+        | none => simp [hs] at hm
+        | some q =>
+          obtain ⟨e1, r⟩ := q
+          simp only [hs, Option.map_eq_some_iff] at hm
+          obtain ⟨m2, _, rfl⟩ := hm
+          obtain ⟨_, hd, body, rfl⟩ := sectionRaw_shrinks hs
+          exact ⟨hd, body ++ m2, rfl⟩
+    obtain ⟨rfl, rfl, rfl⟩ := split_first_header fm1 fe h0 hr rest0 revs' hfk hfe hmore
+    -- the section text on its own
+    have hsok := sectionsRaw_ok _ _ _ hm
+    obtain ⟨c1, hc1⟩ := writeWith_head h0 (renderRaw rest0)
+    have hfm2 : fm2 = 91 :: c1 := by
+      rw [← hsok, ← hc1]; simp [renderRaw, Event.writeRaw, Event.writeWith]
+    have hp2 : parseRaw fm2 = some (.header h0 :: rest0) := by
+      unfold parseRaw
+      have : bomLen fm2 = 0 := by rw [hfm2]; exact bomLen_of_noBomHead _ (by simp [noBomHead])
+      rw [this]
+      simp only [List.drop_zero]
+      rw [hfm2, frontLoop_bracket]
+      simp only [List.isEmpty_cons, Bool.false_eq_true, ↓reduceIte, List.nil_append]
+      rw [← hfm2, hm]; rfl
+    have hb2 : bomLen fm2 = 0 := by rw [hfm2]; exact bomLen_of_noBomHead _ (by simp [noBomHead])
+    obtain ⟨hfm2eq, hins⟩ := parseRaw_ins ht hp2 hb2 hY
+    -- the new section text parses on its own ...
+    obtain ⟨c1', hc1'⟩ := writeWith_head h0 (t ++ renderRaw rest0)
+    have hsec' : sectionsRaw (91 :: c1').length (91 :: c1') = some (.header h0 :: .newline t :: rest0) := by
+      unfold parseRaw at hins
+      have : bomLen (h0.writeWith id ++ (t ++ renderRaw rest0)) = 0 := by
+        rw [hc1']; exact bomLen_of_noBomHead _ (by simp [noBomHead])
+      rw [this] at hins
+      simp only [List.drop_zero] at hins
+      rw [hc1', frontLoop_bracket] at hins
+      simpa using hins
+    -- ... and so does the whole new text
+    rw [hc1']
+    unfold parseRaw
+    have hnb' : noBomHead (renderRaw fm1 ++ 91 :: c1') = true := by
+      cases hF : renderRaw fm1 with
+      | nil => simp [noBomHead]
+      | cons x F' =>
+        rw [← hfok, hF] at hnb
+        exact noBomHead_same_head hnb
+    rw [bomLen_of_noBomHead _ hnb']
+    simp only [List.drop_zero]
+    have hfl : frontLoop a.length (renderRaw fm1 ++ 91 :: c1) = (fm1, 91 :: c1) := by
+      rw [← hfm2, hfok]; exact hfm
+    have := frontLoop_repl a.length (renderRaw fm1) c1 c1' fm1 (renderRaw fm1 ++ 91 :: c1').length hfl (by simp)
+    rw [this]
+    simp only [List.isEmpty_cons, Bool.false_eq_true, ↓reduceIte, hsec']
+    rfl
+
+/-! ### the file read back, with front matter -/
+
+theorem groupSections_front : ∀ (fe X : List Event), (∀ e ∈ fe, isHeaderEv e = false) →
+    groupSections (fe ++ X) = (fe ++ (groupSections X).1, (groupSections X).2) := by
+  intro fe
+  induction fe with
+  | nil => intro X _; rfl
+  | cons e fe ih =>
+    intro X hfe
+    have he := hfe e (by simp)
+    have := ih X (fun x hx => hfe x (by simp [hx]))
+    cases e <;> simp [isHeaderEv] at he <;> simp [groupSections, this]
+
+theorem fileOfEvents_front_header_nl (fe : List Event) (hfe : ∀ e ∈ fe, isHeaderEv e = false) (hd : Header) (t : Bytes)
+    (tl : List Event) :
+    (fileOfEvents (fe ++ .header hd :: .newline t :: tl)).entries = (fileOfEvents (fe ++ .header hd :: tl)).entries ∧
+    (fileOfEvents (fe ++ .header hd :: .newline t :: tl)).headers = (fileOfEvents (fe ++ .header hd :: tl)).headers := by
+  simp [fileOfEvents, groupSections_front fe _ hfe, groupSections, File.entries, File.headers, bodyEntries]
+
+theorem map_toReal_split {revs fe tl : List Event} {hd : Header} (h : revs.map Event.toReal = fe ++ .header hd :: tl) :
+    ∃ rfe hraw revs', revs = rfe ++ .header hraw :: revs' ∧ rfe.map Event.toReal = fe ∧ hraw.toReal = hd ∧
+      revs'.map Event.toReal = tl := by
+  obtain ⟨a, b, rfl, ha, hb⟩ := List.map_eq_append_iff.mp h
+  cases b with
+  | nil => simp at hb
+  | cons e0 revs' =>
+    simp only [List.map_cons, List.cons.injEq] at hb
+    obtain ⟨hraw, rfl, hreal⟩ := toReal_header_inv hb.1
+    exact ⟨a, hraw, revs', rfl, ha, hreal, hb.2⟩
+
+/-- front matter, first header, inserted newline `t`, the rest — and optionally the final newline `t2` -/
+theorem fileFromBytes_insF {t : Bytes} (ht : NL t) {bs : Bytes} {f : File} (h : fileFromBytes bs = some f)
+    (hb : bomLen bs = 0) (hc : ∀ revs, parseRaw bs = some revs → ∀ e ∈ revs, e.canon = true)
+    {fe : List Event} {hd : Header} {tl : List Event} (hfe : ∀ e ∈ fe, isHeaderEv e = false)
+    (hev : f.events = fe ++ .header hd :: tl) (hY : takeNewlines1 (render tl) = none) :
+    fileFromBytes (render (fe ++ .header hd :: .newline t :: tl)) =
+      some (fileOfEvents (fe ++ .header hd :: .newline t :: tl)) := by
+  unfold fileFromBytes parseEvents at h
+  simp only [Option.map_eq_some_iff] at h
+  obtain ⟨evs, ⟨revs, hr, rfl⟩, rfl⟩ := h
+  rw [fileOfEvents_events] at hev
+  have hcan := hc revs hr
+  obtain ⟨rfe, hraw, revs', rfl, hrfe, hreal, htl⟩ := map_toReal_split hev
+  have hcan1 : ∀ e ∈ rfe, e.canon = true := fun e he => hcan e (by simp [he])
+  have hcan' : ∀ e ∈ revs', e.canon = true := fun e he => hcan e (by simp [he])
+  have hrfe_h : ∀ e ∈ rfe, isHeaderEv e = false := by
+    intro e he
+    rw [← isHeaderEv_toReal]
+    exact hfe _ (by rw [← hrfe]; exact List.mem_map_of_mem he)
+  have hrtl : render tl = renderRaw revs' := by rw [← htl]; exact render_toReal_of_canon revs' hcan'
+  have hrfe' : render fe = renderRaw rfe := by rw [← hrfe]; exact render_toReal_of_canon rfe hcan1
+  have hhw : (Event.header hd).write = hraw.writeWith id := by
+    have := (toReal_write_iff (.header hraw)).mpr (hcan _ (by simp))
+    rw [show (Event.header hraw).toReal = Event.header hd by simp [Event.toReal, hreal]] at this
+    simpa [Event.writeRaw, Event.writeWith] using this
+  have hins := parseRaw_insF ht hr hrfe_h hb (by rw [← hrtl]; exact hY)
+  have htext : render (fe ++ .header hd :: .newline t :: tl) =
+      renderRaw rfe ++ (hraw.writeWith id ++ (t ++ renderRaw revs')) := by
+    simp only [render, List.flatMap_append, List.flatMap_cons]
+    rw [show List.flatMap Event.write tl = render tl from rfl, show List.flatMap Event.write fe = render fe from rfl,
+      hrtl, hrfe', hhw]
+    simp [Event.write, Event.writeWith]
+  unfold fileFromBytes parseEvents
+  rw [htext, hins]
+  simp [Event.toReal, hrfe, htl, hreal]
+
+theorem fileFromBytes_insF_app {t t2 : Bytes} (ht : NL t) (ht2 : NL t2) {G : Event → Bool} (hG : EofOk t2 G)
+    (hGr : ∀ e : Event, G e.toReal = G e) {bs : Bytes} {f : File} (h : fileFromBytes bs = some f)
+    (hb : bomLen bs = 0) (hc : ∀ revs, parseRaw bs = some revs → ∀ e ∈ revs, e.canon = true)
+    {fe : List Event} {hd : Header} {tl : List Event} (hfe : ∀ e ∈ fe, isHeaderEv e = false)
+    (hev : f.events = fe ++ .header hd :: tl)
+    (hY : takeNewlines1 (render tl) = none) (hne : render tl ≠ []) (h13 : render tl ≠ [13])
+    (hl : LastOkG G f.events) :
+    fileFromBytes (render (fe ++ .header hd :: .newline t :: (tl ++ [.newline t2]))) =
+      some (fileOfEvents (fe ++ .header hd :: .newline t :: (tl ++ [.newline t2]))) := by
+  unfold fileFromBytes parseEvents at h
+  simp only [Option.map_eq_some_iff] at h
+  obtain ⟨evs, ⟨revs, hr, rfl⟩, rfl⟩ := h
+  rw [fileOfEvents_events] at hev hl
+  have hcan := hc revs hr
+  obtain ⟨rfe, hraw, revs', rfl, hrfe, hreal, htl⟩ := map_toReal_split hev
+  have hcan1 : ∀ e ∈ rfe, e.canon = true := fun e he => hcan e (by simp [he])
+  have hcan' : ∀ e ∈ revs', e.canon = true := fun e he => hcan e (by simp [he])
+  have hrfe_h : ∀ e ∈ rfe, isHeaderEv e = false := by
+    intro e he
+    rw [← isHeaderEv_toReal]
+    exact hfe _ (by rw [← hrfe]; exact List.mem_map_of_mem he)
+  have hrtl : render tl = renderRaw revs' := by rw [← htl]; exact render_toReal_of_canon revs' hcan'
+  have hrfe' : render fe = renderRaw rfe := by rw [← hrfe]; exact render_toReal_of_canon rfe hcan1
+  have hhw : (Event.header hd).write = hraw.writeWith id := by
+    have := (toReal_write_iff (.header hraw)).mpr (hcan _ (by simp))
+    rw [show (Event.header hraw).toReal = Event.header hd by simp [Event.toReal, hreal]] at this
+    simpa [Event.writeRaw, Event.writeWith] using this
+  have hnb := noBomHead_of_parse hr hb
+  have hl' : LastOkG G (rfe ++ Event.header hraw :: revs') := by
+    obtain ⟨e, hle, hv⟩ := hl
+    rw [List.getLast?_map] at hle
+    cases hg : (rfe ++ Event.header hraw :: revs').getLast? with
+    | none => rw [hg] at hle; simp at hle
+    | some e1 =>
+      rw [hg] at hle
+      simp only [Option.map_some, Option.some.injEq] at hle
+      subst hle
+      exact ⟨e1, hg, by rw [← hGr, ← isHeaderEv_toReal]; exact hv⟩
+  have happ := parseRaw_appH ht2 hG hr hnb ⟨Event.header hraw, by simp, rfl⟩ hl'
+  have happ' : parseRaw (bs ++ t2) = some (rfe ++ Event.header hraw :: (revs' ++ [Event.newline t2])) := by
+    rw [happ]; simp
+  have hb2 : bomLen (bs ++ t2) = 0 := bomLen_of_noBomHead _ (noBomHead_app ht2 bs hnb)
+  have hren : renderRaw (revs' ++ [Event.newline t2]) = renderRaw revs' ++ t2 := by
+    simp [renderRaw, Event.writeRaw, Event.writeWith]
+  have hY2 : takeNewlines1 (renderRaw (revs' ++ [Event.newline t2])) = none := by
+    rw [hren, ← hrtl]
+    exact takeNewlines1_none_app ht2 hY hne h13
+  have hins := parseRaw_insF ht happ' hrfe_h hb2 hY2
+  have htext : render (fe ++ .header hd :: .newline t :: (tl ++ [.newline t2])) =
+      renderRaw rfe ++ (hraw.writeWith id ++ (t ++ renderRaw (revs' ++ [Event.newline t2]))) := by
+    simp only [render, List.flatMap_append, List.flatMap_cons]
+    rw [show List.flatMap Event.write tl = render tl from rfl, show List.flatMap Event.write fe = render fe from rfl,
+      hrtl, hrfe', hhw, hren]
+    simp [Event.write, Event.writeWith]
+  unfold fileFromBytes parseEvents
+  rw [htext, hins]
+  simp [Event.toReal, hrfe, htl, hreal]
+
 end GixModel.C26
